@@ -7,7 +7,7 @@ TIER=${TIER:-quick}
 cd /repo && git status --short | grep -q . && { echo "/repo not clean"; exit 2; }
 git -C /repo apply $OUT/patch.diff || { echo "patch does not apply to /repo"; exit 2; }
 trap 'git -C /repo checkout -- .; cd /verif && /venv/bin/python tools/translate.py > /dev/null' EXIT
-CHK=${P%[bcdefghijkl]}; [ $# -gt 0 ] && CHK=""
+CHK=${P%[bcdefghijklm]}; [ $# -gt 0 ] && CHK=""
 for c in $CHK "$@"; do
   o=$(cd /verif && ./check $c --tier $TIER 2>&1); rc=$?
   nv=$(echo "$o" | grep -c '^VIOLATION')
